@@ -26,5 +26,49 @@ static inline void buf_erase_front(buf_t *b, int n)
   __CPROVER_assert(n >= 0 && (size_t)n <= b->sz, "[C12.deref] erase(begin(), begin()+n) within the vector");
   b->sz = b->sz - (size_t)n;
 }
+#define VF_MAX(a, b) ((a) > (b) ? (a) : (b))
+#define NIC_BW 100000000
+/* node / registry calls */
+extern size_t g_umtu_calls; extern addr_t g_umtu_a, g_umtu_b; extern int g_umtu_result;
+int nondet_int(void);
+static inline int uctx_get_path_mtu(struct io_context *ios, addr_t a, addr_t b)
+{
+  (void)ios; int m = nondet_int(); __CPROVER_assume(m >= 1 && m <= 65535);
+  g_umtu_calls++; g_umtu_a = a; g_umtu_b = b; g_umtu_result = m; return m;
+}
+/* simulation::find_udp_socket(socket, dst): empty route when nobody is bound at dst, else network route + receiver's incoming route */
+extern size_t g_find_calls; extern ep_t g_find_dst; extern route_t g_find_result;
+route_t nondet_route(void);
+static inline route_t uctx_find_udp_socket(struct io_context *ios, void *sock, ep_t dst)
+{
+  (void)ios; (void)sock; route_t r = nondet_route(); __CPROVER_assume(r.len >= 0 && r.len <= 500);
+  g_find_calls++; g_find_dst = dst; g_find_result = r; return r;
+}
+extern route_t g_out_route;
+static inline route_t uctx_get_outgoing_route(struct io_context *ios, addr_t a) { (void)ios; (void)a; __CPROVER_assume(g_out_route.len >= 0 && g_out_route.len <= 400); return g_out_route; }
+static inline void route_prepend(route_t *r, route_t front) { *r = route_cat(front, *r); }
+extern size_t g_ubind_calls; 
+/* p.buffer.insert(end, data(i), data(i) + size(i)): the datagram's payload is the concatenation of the send buffers, in order */
+static inline void buf_append(buf_t *dst, bufseq_t b, size_t k)
+{
+  /* src identity: the payload is buffers [0, k] of sequence b exactly when every earlier buffer was appended in order */
+  if (!((dst->id == 0 && k == 0) || (dst->id == b.id && dst->src_next == k))) dst->src_bad = 1;
+  dst->id = b.id; dst->src_next = k + 1; dst->sz = dst->sz + BUFSEQ_SIZE(b, k);
+}
+/* packet capture */
+extern struct pcap *g_pcap;
+extern size_t g_logudp_calls; extern struct packet g_logudp_pkt; extern ep_t g_logudp_src, g_logudp_dst;
+static inline struct pcap *udp_get_pcap(struct io_context *ios) { (void)ios; return g_pcap; }
+static inline void pcap_log_udp_rec(struct pcap *log, struct packet p, ep_t src, ep_t dst)
+{
+  __CPROVER_assert(log != (struct pcap *)0, "[C12.deref] log_udp on a non-null capture");
+  g_logudp_calls++; g_logudp_pkt = p; g_logudp_src = src; g_logudp_dst = dst;
+}
+/* forward_packet from a UDP socket */
+extern size_t g_ufwd_count; extern struct packet g_ufwd_last;
+static inline void udp_forward_packet(struct packet p) { g_ufwd_count++; g_ufwd_last = p; }
+#define USEND_GHOST g_umtu_calls, g_umtu_a, g_umtu_b, g_umtu_result, g_find_calls, g_find_dst, g_find_result, g_logudp_calls, g_logudp_pkt, g_logudp_src, g_logudp_dst, g_ufwd_count, g_ufwd_last, g_ubind_calls
+extern size_t G_total, G_sz0, G_sz1; extern int G_bound_ok;
+#define SPEC_TX_NIC(bytes) F2I(FMUL(FDIV(1000000000.0, I2F(NIC_BW)), I2F(bytes)))
 #define UDP_Q_FRESH(self) PL_FRESH((self)->m_incoming_queue)
 #endif
